@@ -92,7 +92,8 @@ DEFCB(0) DEFCB(1) DEFCB(2) DEFCB(3) DEFCB(4) DEFCB(5) DEFCB(6) DEFCB(7)
 static cstl_xtor_func_t *cbs[NCB] = { cb0, cb1, cb2, cb3, cb4, cb5, cb6, cb7 };
 
 /* an object that keeps a weak back-reference to itself (or to a sibling): its clear callback re-enters the library */
-static cstl_weak_ptr_t sr_back, sr_other; static cstl_shared_ptr_t sr_tmp;
+static cstl_weak_ptr_t sr_back, sr_other; static cstl_shared_ptr_t sr_tmp, sr_src; static int sr_reset_src, sr_y_calls;
+static void cb_other_object(void *ptr, void *priv) { (void)ptr; (void)priv; sr_y_calls++; }
 static int sr_calls, sr_flags, sr_lock_gave_owner, sr_payload_ok; static unsigned char *sr_payload;
 static void cb_selfref(void *ptr, void *priv)
 {
@@ -108,6 +109,7 @@ static void cb_selfref(void *ptr, void *priv)
         cstl_shared_ptr_reset(&sr_tmp);
     }
     cstl_weak_ptr_reset(&sr_back);              /* drop the back-reference while the owner's reset is still running */
+    if (sr_reset_src) cstl_shared_ptr_reset(&sr_src);      /* ... and the last owner of ANOTHER object, which may be an operand of the call in flight */
     if (sr_flags & 2) cstl_weak_ptr_reset(&sr_other);
     g_inlib = 0;
     CB_LEAVE();
@@ -541,8 +543,45 @@ static void q_once(const plan_t *p)
             TRY(cstl_weak_ptr_from(&sr_other, &s1));        /* flags&2: dropped by the callback too; else: outlives the payload */
             if (sr_flags & 4) { TRY(cstl_shared_ptr_share(&s1, &s2)); TRY(cstl_shared_ptr_reset(&s2)); }
             if (sr_calls) VIOL("cleared_early", "the clear callback ran while an owner exists");
-            if (sr_flags & 8) { TRY(cstl_shared_ptr_share(&s1, &s2)); TRY(cstl_shared_ptr_reset(&s1)); TRY(cstl_shared_ptr_reset(&s2)); }   /* the last owner is a sharer */
-            else TRY(cstl_shared_ptr_reset(&s1));
+            sr_reset_src = 0; sr_y_calls = 0; cstl_shared_ptr_init(&sr_src);
+            switch (o->a[3] % 4) {
+            default:
+                if (sr_flags & 8) { TRY(cstl_shared_ptr_share(&s1, &s2)); TRY(cstl_shared_ptr_reset(&s1)); TRY(cstl_shared_ptr_reset(&s2)); }   /* the last owner is a sharer */
+                else TRY(cstl_shared_ptr_reset(&s1));
+                break;
+            case 1:
+                /* the last owner lets go because it is the DESTINATION of a lock through the very back-reference the
+                 * clear callback drops: the operands of the call in flight change under it */
+                g_cur_ctx = "lock-into-last-owner";
+                TRY(cstl_weak_ptr_lock(&sr_back, &s1));
+                TRY(pp = cstl_shared_ptr_get(&s1));
+                if (!g_aborted && pp != NULL) VIOL("lock_after_last_owner", "a lock whose destination was the last owner yielded an owner of the object that just died");
+                PROBE("clear_callback_changes_operand_of_call_in_flight");
+                break;
+            case 2: {
+                /* ... or the destination of a share whose SOURCE is reset by the callback (it was the last owner of another object) */
+                static const void *q;
+                g_cur_ctx = "share-into-last-owner";
+                TRY(cstl_shared_ptr_alloc(&sr_src, 24, cb_other_object));
+                TRY(q = cstl_shared_ptr_get(&sr_src));
+                if (q == NULL) { TRY(cstl_shared_ptr_reset(&s1)); break; }
+                sr_reset_src = 1;
+                TRY(cstl_shared_ptr_share(&sr_src, &s1));
+                sr_reset_src = 0;
+                if (sr_y_calls != 1) VIOL("clear_count", "the other object, whose last owner was reset from the clear callback, was cleared %d times", sr_y_calls);
+                TRY(pp = cstl_shared_ptr_get(&s1));
+                if (!g_aborted && pp != NULL) VIOL("share_from_emptied_source", "share from a source that the destination's clear callback had emptied left the destination owning something");
+                TRY(cstl_shared_ptr_reset(&s1));
+                PROBE("clear_callback_changes_operand_of_call_in_flight");
+                break;
+            }
+            case 3:
+                /* ... or because it is re-targeted by alloc */
+                g_cur_ctx = "alloc-over-last-owner";
+                TRY(cstl_shared_ptr_alloc(&s1, 24, NULL));
+                TRY(cstl_shared_ptr_reset(&s1));
+                break;
+            }
             if (g_aborted) VIOL(g_aborted == 2 ? "assert" : "abort", "reset of the last owner aborted while its clear callback dropped the object's weak back-reference");
             if (sr_calls != 1) VIOL("clear_count", "the clear callback ran %d times for one allocation", sr_calls);
             if (!sr_payload_ok) VIOL("callback_payload", "the clear callback was not handed the intact, still allocated payload");
@@ -702,7 +741,7 @@ static void q_gen(prng_t *r, int mode, plan_t *p)
         if (faults && (kind == U_ALLOC || kind == S_ALLOC) && prng_chance(r, 1, 3)) o->a[4] = 1 + prng_below(r, 2);
     }
     if (mode == 5 && prng_chance(r, 1, 150)) { op_t *o = plan_add(p, X_MANY); o->a[2] = prng_below(r, 8); }
-    if (mode == 5 && prng_chance(r, 1, 6)) { op_t *o = plan_add(p, X_SELFREF); o->a[2] = prng_below(r, 16); }
+    if (mode == 5 && prng_chance(r, 1, 6)) { op_t *o = plan_add(p, X_SELFREF); o->a[2] = prng_below(r, 16); o->a[3] = prng_below(r, 4); }
     if (mode == 20) {
         op_t *o = plan_add(p, X_STRAY);
         o->a[0] = prng_below(r, 4); o->a[1] = prng_below(r, 12); o->a[2] = prng_below(r, 63); o->a[3] = prng_below(r, 2); o->a[5] = prng_below(r, 12);
